@@ -225,6 +225,26 @@ def m_max(it, args, kw):
 
 @model(builtins.sum)
 def m_sum(it, args, kw):
+    src = args[0]
+    if type(src).__name__ == "SSeqGen":
+        src = src.filtered
+    if isinstance(src, SSeq) and not z3.is_int_value(z3.simplify(to_int(src.length))):
+        from . import seqs
+
+        src = seqs.SFiltered(to_int(src.length), lambda i: z3.BoolVal(True), src.getter, name=src.name)
+    if type(src).__name__ == "SFiltered" and not getattr(src, "objects", False):
+        # sum over a symbolic-length sequence of numbers: the value S(n) of the defining recursion S(0)=start, S(k+1)=S(k)+[cond(k)]*elt(k)
+        start = args[1] if len(args) > 1 else 0
+        sample = src.elt(z3.IntVal(0))
+        isint = is_intlike(sample) and is_intlike(start)
+        S = z3.Function("sum_prefix_%d" % len(it.path.ghost.setdefault("sums", [])), z3.IntSort(), z3.IntSort() if isint else z3.RealSort())
+        k = z3.Int("sk%d" % len(it.path.ghost["sums"]))
+        conv = to_int if isint else to_real
+        it.path.assume(S(0) == conv(start))
+        it.path.assume(z3.ForAll([k], z3.Implies(k >= 0, S(k + 1) == S(k) + z3.If(src.cond(k), conv(src.elt(k)), 0))))
+        it.path.assumed.add("sum(): defining recursion of the running total over the sequence")
+        it.path.ghost["sums"].append({"n": src.n, "total": S(src.n), "elt": src.elt, "cond": src.cond, "S": S})
+        return S(src.n)
     items = it.iterate(args[0])
     acc = args[1] if len(args) > 1 else 0
     import ast as _ast
